@@ -26,17 +26,38 @@ pub fn mapping_m1() -> Vec<Line> {
 pub fn mapping_m2() -> Vec<Line> {
     vec![class("q.Other", "q.o"), method(Some((1, 3)), None, "x", "", Orig::None, "y"), class("q.E", "a.EE"), class("q.B", "a")]
 }
-/// M1 plus a class whose method `k` is a 40-deep inline group at line 1
+/// M4 (= M1 + R8 metadata comments) plus a class whose method `k` is a 40-deep inline group at line 1
 pub fn mapping_m3() -> Vec<Line> {
-    let mut v = mapping_m1();
+    let mut v = mapping_m4();
     v.push(class("deep.Deep", "d.D"));
     for i in 0..40u64 {
         v.push(method(Some((1, 1)), if i % 2 == 0 { Some("deep.Lib") } else { None }, leak(&format!("lvl{}", i)), "", Orig::S(100 + i), "k"));
     }
     v
 }
+/// M1 with R8's rewriteFrame / synthesized / outline comments below the member lines they would belong to (indented:
+/// not records of the documented grammar, so the answers are those of M1)
+pub fn mapping_m4() -> Vec<Line> {
+    let mut v = Vec::new();
+    for l in mapping_m1() {
+        v.push(l);
+        if let Line::Method { name, .. } = l {
+            match name {
+                "inlined" => v.push(Line::Noise(b"      # {\"id\":\"com.android.tools.r8.rewriteFrame\",\"conditions\":[\"throws(Lcom/example/Err;)\"],\"actions\":[\"removeInnerFrames(1)\"]}")),
+                "outer" => {
+                    v.push(Line::Noise(b"      # {\"id\":\"com.android.tools.r8.rewriteFrame\",\"conditions\":[\"throws(La/E;)\"],\"actions\":[\"removeInnerFrames(2)\"]}"));
+                    v.push(Line::Noise(b"      # {\"id\":\"com.android.tools.r8.synthesized\"}"));
+                }
+                "other" => v.push(Line::Noise(b"      # {\"id\":\"com.android.tools.r8.outline\"}")),
+                "run" => v.push(Line::Noise(b"    # {\"id\":\"com.android.tools.r8.outlineCallsite\",\"positions\":{\"1\":2},\"outline\":\"La/b;m()V\"}")),
+                _ => {}
+            }
+        }
+    }
+    v
+}
 pub fn mappings() -> Vec<(&'static str, Vec<Line>)> {
-    vec![("empty", vec![]), ("M1 (inline group + sourceFile)", mapping_m1()), ("M2 (knows none of the names)", mapping_m2()), ("M3 (M1 + 40-deep inline group)", mapping_m3())]
+    vec![("empty", vec![]), ("M1 (inline group + sourceFile)", mapping_m1()), ("M2 (knows none of the names)", mapping_m2()), ("M4 (M1 + R8 metadata comments)", mapping_m4()), ("M3 (M4 + 40-deep inline group)", mapping_m3())]
 }
 
 // ---------------------------------------------------------------------------------------------
@@ -387,14 +408,16 @@ pub fn run_c07(tier: Tier) -> i32 {
         };
         // nest the three with_both calls so that all subjects are alive together
         let (a0, rest) = abs.split_at_mut(1);
-        let (a1, a2) = rest.split_at_mut(1);
-        with_both(&builts[0], &mut a0[0], |m0, c0| with_both(&builts[1], &mut a1[0], |m1, c1| with_both(&builts[2], &mut a2[0], |m2, c2| run(&[(m0, c0), (m1, c1), (m2, c2)]))));
+        let (a1, rest) = rest.split_at_mut(1);
+        let (a2, rest) = rest.split_at_mut(1);
+        // subjects: empty, M1, M2 and M4 = builts[0..4] (the i-th subject pair is checked against builts[i]); M3 is C08's
+        with_both(&builts[0], &mut a0[0], |m0, c0| with_both(&builts[1], &mut a1[0], |m1, c1| with_both(&builts[2], &mut a2[0], |m2, c2| with_both(&builts[3], &mut rest[0], |m4, c4| run(&[(m0, c0), (m1, c1), (m2, c2), (m4, c4)])))));
     });
     let meta = RunMeta {
         prop: "C07",
         tier,
         level: "model_checking",
-        rule: format!("every text of 1..={} lines over 36 line shapes (plus long lines and run-length texts: 99..1001 unresolved frames followed by a resolving one; plus 5 long lines of 1.1 kB / 70 kB placed first, between and after <= 2 other shapes) (throwables known/unknown with/without message, message containing ': ' and frame-like text, frames space/tab/trailing-blank indented that resolve to 2 / 1 / 0 frames, unknown method, unknown class, line outside every range, Native Method, Unknown Source, two frames differing only in their file, 'Caused by:' known/unknown/indented, '... n more', blank, 'at x(y:1)', non-ASCII) x 3 terminator policies (LF, CRLF, no final newline) x 3 mappings x {{mapper (for every second mapping the one built with the parameter index), cache}}; oracle = text model R12 with an independent line classifier. states = (text, mapping); distinct = distinct expected outputs; non-trivial = outputs that differ from the normalised input", depth),
+        rule: format!("every text of 1..={} lines over 36 line shapes (plus long lines and run-length texts: 99..1001 unresolved frames followed by a resolving one; plus 5 long lines of 1.1 kB / 70 kB placed first, between and after <= 2 other shapes) (throwables known/unknown with/without message, message containing ': ' and frame-like text, frames space/tab/trailing-blank indented that resolve to 2 / 1 / 0 frames, unknown method, unknown class, line outside every range, Native Method, Unknown Source, two frames differing only in their file, 'Caused by:' known/unknown/indented, '... n more', blank, 'at x(y:1)', non-ASCII) x 3 terminator policies (LF, CRLF, no final newline) x 4 mappings (empty; inline group + sourceFile; one that knows none of the names; the second one with R8's indented rewriteFrame / synthesized / outline comments below its member lines) x {{mapper (for every second mapping the one built with the parameter index), cache}}; oracle = text model R12 with an independent line classifier. states = (text, mapping); distinct = distinct expected outputs; non-trivial = outputs that differ from the normalised input", depth),
         bounds: json!({"lines": depth, "shapes": SHAPES.to_vec(), "terminators": ["LF","CRLF","LF without final newline"], "mappings": mappings().iter().map(|(l, m)| json!({"label":l,"text":esc(&print_file(m, Term::Lf))})).collect::<Vec<_>>()}),
         assumptions: vec!["lines are split like str::lines (LF, CR dropped only directly before LF)".into()],
         trusted_base: vec!["rustc/std (str::trim, str::parse::<usize>)".into(), "text model + line classifier in pgmc/src/props/e3.rs".into(), "reference model pgmc/src/model.rs".into()],
@@ -543,7 +566,7 @@ fn check_typed(b: &Built, t: &OTrace, canonical: bool, mapper: &dyn Subj, cache:
 /// `run_length_texts` parsed by the library's own trace parser (C17 covers that parser) and remapped typed
 fn c08_run_lengths(builts: &[Built], acc: &mut Acc) {
     for t in run_length_texts() {
-        for b in [&builts[3], &builts[2]] {
+        for b in [&builts[4], &builts[2]] {
             let mut ab = Aligned::new(&[]);
             with_both(b, &mut ab, |m, c| {
                 if let Some((parsed, _, _)) = m.remap_typed_text(&t) {
@@ -666,9 +689,9 @@ pub fn run_c08(tier: Tier) -> i32 {
         }
         let mut abs: Vec<Aligned> = vec![Aligned::new(&[]), Aligned::new(&[])];
         let (a1, a2) = abs.split_at_mut(1);
-        with_both(&builts[3], &mut a1[0], |m1, c1| {
+        with_both(&builts[4], &mut a1[0], |m1, c1| {
             with_both(&builts[2], &mut a2[0], |m2, c2| {
-                let subs: [(&Built, &dyn Subj, &dyn Subj); 2] = [(&builts[3], m1, c1), (&builts[2], m2, c2)];
+                let subs: [(&Built, &dyn Subj, &dyn Subj); 2] = [(&builts[4], m1, c1), (&builts[2], m2, c2)];
                 let top = mk_level(THROWABLES[ti], &fseqs[fi]);
                 let degenerate_top = top.exception.is_none() && top.frames.is_empty();
                 // chains: depth 0..=max_depth; the first cause level ranges over all cause levels, deeper ones over the small family
